@@ -39,6 +39,9 @@ func dumpFunc(w *World, spec string) {
 			f.WriteTo(os.Stdout)
 		}
 		tb := newTB(f)
+		if os.Getenv("DEEP") != "" {
+			tb = newDeepTB(f)
+		}
 		eachInstr(f, func(i ssa.Instruction) {
 			switch i := i.(type) {
 			case *ssa.Return:
@@ -58,6 +61,9 @@ func dumpFunc(w *World, spec string) {
 					fmt.Printf("  CALL b%d %s\n", i.Block().Index, tr(tb.T(v)))
 				} else {
 					fmt.Printf("  CALL b%d %s %v\n", i.Block().Index, calleeName(i), i)
+					for k, a := range i.Common().Args {
+						fmt.Printf("      arg%d = %s\n", k, tr(tb.T(a)))
+					}
 				}
 			}
 		})
